@@ -328,9 +328,14 @@ func C14(tier string) int {
 	type job struct{ n, v, choices int }
 	jobs := []job{{1, 3, 7}, {2, 2, 7}, {2, 3, 3}}
 	if tier == "thorough" {
-		jobs = []job{{1, 4, 7}, {2, 3, 7}, {2, 4, 3}}
+		jobs = []job{{1, 4, 7}, {2, 3, 4}, {2, 4, 3}} // ({2,3,7} = 0.8M histories x 420 queries did not finish in an hour)
 	}
 	st := &c14stats{}
+	deadline := time.Now().Add(25 * time.Minute)
+	if tier != "thorough" {
+		deadline = time.Now().Add(4 * time.Minute)
+	}
+	skipped := int64(0)
 	var total int64
 	var mu sync.Mutex
 	sem := make(chan struct{}, runtime.NumCPU())
@@ -362,6 +367,10 @@ func C14(tier string) int {
 				}()
 			}
 			enumChoices(j.n, j.v, j.choices, func(ch [][]int) {
+				if time.Now().After(deadline) {
+					skipped++
+					return
+				}
 				cnt++
 				batch = append(batch, copyChoices(ch))
 				if len(batch) == 64 {
@@ -379,6 +388,10 @@ func C14(tier string) int {
 	wg.Wait()
 	for _, r := range c14app(st) {
 		run.Report(r.sig, r.what, nil)
+	}
+	if skipped > 0 {
+		run.Set("exhaustive", false)
+		run.Set("cap_hit", fmt.Sprintf("internal deadline reached: %d of %d histories were not run", skipped, skipped+total))
 	}
 	run.Set("evaluations", st.queries)
 	run.Set("states", st.phases)
